@@ -1,4 +1,5 @@
 import Proofs.Dump
+import Proofs.DumpText
 import Props.C11
 
 /-!
@@ -15,7 +16,7 @@ together and in which order is the environment's choice: the theorems hold for e
 -/
 
 namespace DH.Dump
-open DH.Pareto
+open DH.Pareto DH.Csv
 
 /-- **C04 (rows).**  For every sequence of batches of finished jobs with supported objectives —
 any interleaving of failures and successes, single or multi objective, any batch sizes, any
@@ -57,18 +58,24 @@ theorem C04_rows_single_call (bs : List (List JobRec))
 
 /-! ### several `Search` objects on one `log_dir` -/
 
-/-- **C04 (new `Search` object).**  Constructing a `Search` on a `log_dir` whose `results.csv`
-exists (header written), with a fresh evaluator / plain callable or with the evaluator instance of
-the previous `Search` (whose last flush left nothing pending): the table starts empty again and the
-evaluator's dump state is "nothing written yet"; only `num_objective` survives on a re-used
-evaluator. -/
-theorem C04_new_search (c : EvalChoice) (st : DumpState) (t : Table) (h : List Col)
-    (hex : t.header = some h) (hp : st.pending = []) :
+/-- **C04 (new `Search` object).**  Constructing a `Search` on a `log_dir` — whether its
+`results.csv` exists (it is renamed) or not (an evaluator that dumped for a search elsewhere) —
+with a fresh evaluator / plain callable or with the evaluator instance of an earlier `Search`
+(whose last flush left nothing pending): the table is empty and the evaluator's dump state is
+"nothing written yet"; only `num_objective` survives on a re-used evaluator. -/
+theorem C04_new_search (c : EvalChoice) (st : DumpState) (t : Table)
+    (ht : t.header.isSome = true ∨ t = Table.empty) (hp : st.pending = []) :
     searchInit c st t =
       (⟨false, none, (match c with | .fresh => none | .reuse => st.numObjective), []⟩, Table.empty) := by
+  have htab : (match t.header with | some _ => Table.empty | none => t) = Table.empty := by
+    rcases ht with h | h
+    · cases hh : t.header with
+      | none => rw [hh] at h; cases h
+      | some x => rfl
+    · subst h; rfl
   cases c with
-  | fresh => simp [searchInit, hex, DumpState.fresh]
-  | reuse => obtain ⟨a, b, n, p⟩ := st; simp only at hp; subst hp; simp [searchInit, hex]
+  | fresh => simp [searchInit, DumpState.fresh]; exact htab
+  | reuse => obtain ⟨a, b, n, p⟩ := st; simp only at hp; subst hp; simp [searchInit]; exact htab
 
 /-- **C04 (rows, re-used evaluator).**  A `Search` whose evaluator inherited `num_objective = m`
 from an earlier `Search`: for every sequence of dumps (mid-run flushes included — no `FlushOK`
@@ -175,6 +182,116 @@ theorem C04_config_status_metadata (n : Option Nat) (j : JobRec) (k : String) :
     specCell n j Col.jobStatus = some (Val.str j.status.name) ∧
     specCell n j Col.jobId = some (Val.num j.id) ∧
     specCell n j (Col.mdata k) = dget (visibleMeta j.md) k := ⟨rfl, rfl, rfl, rfl⟩
+
+/-! ### down to the bytes of `results.csv`, and back by column name -/
+
+/-- **C04 (column names).**  Distinct columns have distinct names: `p:<name>`, `objective`,
+`objective_<i>`, `job_id`, `job_status`, `m:<key>` never collide (the decimal rendering of `i` is
+injective: Std's `Nat.repr_injective`). -/
+theorem C04_col_name_injective (a b : Col) (h : a.name = b.name) : a = b :=
+  Col.name_injective a b h
+
+/-- **C04 (CSV round trip).**  `csv.reader` applied to what `csv.writer` wrote — QUOTE_MINIMAL,
+quotes doubled, `\r\n` terminators, for cells containing commas, quotes, carriage returns, line
+feeds or any other character — gives back exactly the cells, for every list of non-empty records. -/
+theorem C04_csv_round_trip (rows : List (List Text)) (h : ∀ r ∈ rows, r ≠ []) :
+    parseFile (renderFile rows) = rows :=
+  parse_renderFile rows h
+
+/-- **C04 (bytes).**  Reading the bytes of the results file back gives the header names and,
+line by line, the text of the model's cells. -/
+theorem C04_bytes (fmt : Val → Text) (h : List Col) (hne : h ≠ []) (n : Option Nat) (J : List JobRec) :
+    parseFile (fileText fmt ⟨some h, J.map (renderRow h n)⟩)
+      = h.map colText :: J.map (fun j => h.map (fun c => cellText fmt (specCell n j c))) := by
+  unfold fileText
+  rw [parse_renderFile _ (tableLines_nonempty fmt h hne _ (by
+    intro r hr
+    simp only [List.mem_map] at hr
+    obtain ⟨j, _, rfl⟩ := hr
+    exact renderRow_ne_nil h hne n j))]
+  simp only [tableLines, List.map_map]
+  congr 1
+  apply List.map_congr_left
+  intro j _
+  simp only [Function.comp_apply, C04_cells, List.map_map]
+  rfl
+
+/-- **C04 (read back by name).**  What a CSV reader sees: in the file written for the jobs `J`
+(header `h`, arity `n`), looking up the column *named* like `c` in the line of the `k`-th finished
+job yields the text of that job's own value for that column — its configuration value for
+`p:<name>`, its failure string / objective component for `objective…`, its id, its status, its
+metadata value for `m:<key>`.  (`fmt` = how Python prints a number.) -/
+theorem C04_read_back (fmt : Val → Text) (h : List Col) (n : Option Nat) (J : List JobRec)
+    (k : Nat) (j : JobRec) (hk : J[k]? = some j) (c : Col) (hc : c ∈ h) :
+    ∃ hdr row, (parseFile (fileText fmt ⟨some h, J.map (renderRow h n)⟩))[0]? = some hdr ∧
+      (parseFile (fileText fmt ⟨some h, J.map (renderRow h n)⟩))[k + 1]? = some row ∧
+      lookupByName hdr row (colText c) = some (cellText fmt (specCell n j c)) := by
+  have hne : h ≠ [] := List.ne_nil_of_mem hc
+  rw [C04_bytes fmt h hne n J]
+  refine ⟨h.map colText, h.map (fun c => cellText fmt (specCell n j c)), rfl, by simp [hk], ?_⟩
+  exact lookupByName_map colText colText_injective (fun c => cellText fmt (specCell n j c)) h c hc
+
+/-! ### the specification as a decidable predicate on the real file -/
+
+/-- one line of the file shows the job `j` -/
+def RowMatches (tol : Rat) (cols : List Col) (n : Option Nat) (j : JobRec) (row : List CellIn) : Prop :=
+  row.length = cols.length ∧ ∀ p ∈ cols.zip row, cellOK tol p.2 (specCell n j p.1) = true
+
+/-- **the C04 specification of a results file** (`hdr` = header names, `rows` = its lines,
+`jobs` = the finished evaluations, `n` = the arity): the header names are those of the columns
+`cols`; `job_id`, `job_status`, every configuration key and exactly the objective columns of the
+arity are present; there are as many lines as jobs, job ids are unique, and each job has exactly
+one line carrying its id, which shows the job's own value in every column. -/
+def TableSpec (tol : Rat) (cols : List Col) (hdr : List String) (rows : List (List CellIn))
+    (jobs : List JobRec) (n : Option Nat) : Prop :=
+  cols.map Col.name = hdr ∧ Col.jobId ∈ cols ∧ Col.jobStatus ∈ cols ∧
+  cols.filter isObjCol = objColsOf n ∧
+  (∀ j ∈ jobs, ∀ kv ∈ j.args, Col.param kv.1 ∈ cols) ∧
+  rows.length = jobs.length ∧ (jobs.map (·.id)).Nodup ∧
+  ∀ j ∈ jobs, (rows.filter (hasId cols j.id)).length = 1 ∧
+    ∀ r ∈ rows, hasId cols j.id r = true → RowMatches tol cols n j r
+
+/-- **C04 (verified checker).**  The executable checker the harness runs on the real file content
+decides exactly the specification. -/
+theorem C04_checker (tol : Rat) (cols : List Col) (hdr : List String) (rows : List (List CellIn))
+    (jobs : List JobRec) (n : Option Nat) :
+    checkTable tol cols hdr rows jobs n = true ↔ TableSpec tol cols hdr rows jobs n := by
+  simp only [checkTable, TableSpec, RowMatches, rowMatches, Bool.and_eq_true, decide_eq_true_eq,
+    List.all_eq_true, List.contains_iff_mem, beq_iff_eq, Bool.or_eq_true, Bool.not_eq_true']
+  constructor
+  · rintro ⟨⟨⟨⟨⟨⟨⟨h1, h2⟩, h3⟩, h4⟩, h5⟩, h6⟩, h7⟩, h8⟩
+    refine ⟨h1, h2, h3, h4, h5, h6, h7, ?_⟩
+    intro j hj
+    obtain ⟨ha, hb⟩ := h8 j hj
+    refine ⟨ha, ?_⟩
+    intro r hr hid
+    rcases hb r hr with hf | hm
+    · rw [hid] at hf; cases hf
+    · exact hm
+  · rintro ⟨h1, h2, h3, h4, h5, h6, h7, h8⟩
+    refine ⟨⟨⟨⟨⟨⟨⟨h1, h2⟩, h3⟩, h4⟩, h5⟩, h6⟩, h7⟩, ?_⟩
+    intro j hj
+    obtain ⟨ha, hb⟩ := h8 j hj
+    refine ⟨ha, ?_⟩
+    intro r hr
+    cases hid : hasId cols j.id r with
+    | false => exact Or.inl rfl
+    | true => exact Or.inr (hb r hr hid)
+
+/-- the header names determine the columns: two parses of the same header are equal, so the
+`cols` input of the checker carries no freedom -/
+theorem C04_header_parse_unique (cols cols' : List Col) (h : cols.map Col.name = cols'.map Col.name) :
+    cols = cols' := by
+  induction cols generalizing cols' with
+  | nil => cases cols' with
+    | nil => rfl
+    | cons a l => simp at h
+  | cons c cols ih =>
+    cases cols' with
+    | nil => simp at h
+    | cons a l =>
+      simp only [List.map_cons, List.cons.injEq] at h
+      rw [Col.name_injective c a h.1, ih l h.2]
 
 /-! ### return forms and `_on_done` -/
 
@@ -346,6 +463,40 @@ example : (runHistoryWith searchInitNoReset DumpState.fresh Table.empty
       [(.fresh, [([w0], false), ([w1], false), ([], true)]), (.reuse, [([w2], false), ([], true)])]).map
       (fun t => (t.header.isSome, t.rows.length)) = [(true, 2), (false, 1)] := by
   decide +kernel
+
+/-- a file cell showing exactly the model's cell -/
+def exactCell : Option Val → CellIn
+  | some (.str s) => ⟨s, none⟩
+  | some (.num q) => ⟨"", some q⟩
+  | _ => ⟨"", none⟩
+
+/-- the checker accepts the table the repaired writer produces for `w0, w1, w2` … -/
+example :
+    let cols := headerOf (some 2) w1
+    checkTable (1 / 1000000000000) cols (cols.map Col.name)
+      ([w0, w1, w2].map (fun j => (renderRow cols (some 2) j).map exactCell)) [w0, w1, w2] (some 2) = true := by
+  decide +kernel
+
+/-- … rejects the table of the writer before fix 1 (the failure string is missing) … -/
+example :
+    let cols := headerOf (some 2) w1
+    checkTable (1 / 1000000000000) cols (cols.map Col.name)
+      ([w0, w1, w2].map (fun j => (renderRow cols (if j.id = 0 then some 1 else some 2) j).map exactCell))
+      [w0, w1, w2] (some 2) = false := by
+  decide +kernel
+
+/-- … and a table with a line missing -/
+example :
+    let cols := headerOf (some 2) w1
+    checkTable (1 / 1000000000000) cols (cols.map Col.name)
+      ([w0, w1].map (fun j => (renderRow cols (some 2) j).map exactCell)) [w0, w1, w2] (some 2) = false := by
+  decide +kernel
+
+/-- the bytes of a table with a comma, a quote and a line feed in its cells, and reading them back -/
+example : String.ofList (renderFile [["p:c".toList, "objective".toList], ["a,\"b\"".toList, "F_1\n2".toList]])
+    = "p:c,objective\r\n\"a,\"\"b\"\"\",\"F_1\n2\"\r\n" := by decide +kernel
+example : parseFile "p:c,objective\r\n\"a,\"\"b\"\"\",\"F_1\n2\"\r\n".toList
+    = [["p:c".toList, "objective".toList], ["a,\"b\"".toList, "F_1\n2".toList]] := by decide +kernel
 
 example : onDoneObjective (.list [.num 1, .nonfin .nan]) = .str "F" := by decide +kernel
 example : (match standardizeOutput (.dict [("objective", .num 1), ("metadata", .num 3)]) with
